@@ -4,6 +4,7 @@ CONSTANTS
   Hist = FALSE
   ClearBeforeCopy = TRUE
   CopyThroughSet = FALSE
+  AliasedFirstAssignment = FALSE
   UnhookedExtend = FALSE
 SPECIFICATION Spec
 INVARIANT KeepsData
